@@ -334,7 +334,11 @@ where
 
         // Compute gradient of log probability with respect to pos.
         // First gradient step in leapfrog needs it.
-        let grads = pos.grad(&logp_current.backward()).unwrap();
+        // A log-density that does not depend on the positions in the autodiff graph (piecewise
+        // constant targets such as the uniform density on a box) has no gradient entry: it is zero.
+        let grads = pos
+            .grad(&logp_current.backward())
+            .unwrap_or_else(|| pos.clone().inner().zeros_like());
         let grad_summands =
             Tensor::<B, 2>::from_inner(grads.mul_scalar(self.step_size * T::from(0.5).unwrap()));
         self.last_grad_summands = grad_summands;
@@ -469,7 +473,9 @@ where
 
             // Compute gradient at the new positions.
             let logp = self.target.unnorm_logp_batch(pos.clone());
-            let grads = pos.grad(&logp.backward()).unwrap();
+            let grads = pos
+                .grad(&logp.backward())
+                .unwrap_or_else(|| pos.clone().inner().zeros_like());
             let grad_summands = Tensor::<B, 2>::from_inner(grads.mul_scalar(self.step_size * half));
 
             // Update momentum by another half-step using the new gradients.
